@@ -28,6 +28,7 @@ class Ctx:
         from . import summary as _summary
 
         _summary.SEQ_TEXTS = set(repo.seq_texts) if hasattr(repo, "seq_texts") else set()
+        _summary.STR_ATTRS = set(repo.str_attrs) if hasattr(repo, "str_attrs") else set()
         # class hierarchy facts for case tables: isinstance(x, Sub) implies isinstance(x, Base)
         from .props import _codec
 
